@@ -580,12 +580,11 @@ class TraitSetObject(TraitSet):
         Notifiers are transient and should not be copied.
         """
 
-        result = TraitSetObject(
-            self.trait,
-            None,
-            self.name,
-            {copy.deepcopy(x, memo) for x in self},
-        )
+        # The items have been validated already, and the copy has no owner to
+        # validate them against (which some item traits, e.g. This, need):
+        # copy them over without validating them again.
+        result = TraitSetObject(self.trait, None, self.name, set())
+        set.update(result, {copy.deepcopy(x, memo) for x in self})
 
         return result
 
